@@ -130,6 +130,45 @@ def r10_1(rep, M, rid):
         raise AnalysisError(f"only {len(sites)} call sites of get_displacement_tensor resolved (4 confirmed by hand)")
 
 
+def r10_5(rep, M, rid):
+    """get_distances: the record handed to SBC / classifier holds the tables under their own names"""
+    from .. import sigs
+    from ..effects import Effects
+    fq = GEO + ".get_distances"
+    fn = M.func(fq)
+    sigs.run(rep, M, rid, scope={fq})
+    E = Effects(M)
+    st = E.states(fq)
+    fl = Flow(fn)
+    # the radii-corrected matrix must not alias the raw distance matrix (it is modified in place)
+    subs = [s for s in ast.walk(fn) if isinstance(s, ast.AugAssign) and isinstance(s.op, ast.Sub) and isinstance(s.target, ast.Name)]
+    if not subs:
+        raise AnalysisError("get_distances: in-place subtraction of the radii matrix not found")
+    for s in subs:
+        tgt = s.target.id
+        defs = [d for d in ast.walk(fn) if isinstance(d, ast.Assign) and norm(d.targets[0]) == tgt]
+        fresh = defs and all(isinstance(d.value, ast.Call) and M.ext_name(fq, d.value.func) in ("numpy.array", "numpy.copy") or
+                             (isinstance(d.value, ast.Call) and isinstance(d.value.func, ast.Attribute) and d.value.func.attr == "copy") for d in defs)
+        rsl = fl.slice(s.value, fl.node_of(s))
+        sym = any(isinstance(b, ast.BinOp) and isinstance(b.op, ast.Add) and {"[:, None]", "[None, :]"} <=
+                  {norm(x)[len(norm(x.value)):] for x in ast.walk(b) if isinstance(x, ast.Subscript)} for e in rsl["exprs"] for b in ast.walk(e))
+        from_radii = any(GEO + ".get_radii" in M.callees_of_call(fq, c) for c in fl.calls_in_slice(s.value, fl.node_of(s)))
+        if fresh and sym and from_radii:
+            rep.ok(rid, f"get_distances: `{tgt}` is a copy of the raw matrix minus r_i + r_j of the resolved radii")
+        elif not fresh:
+            rep.violation(rid, f"get_distances: `{norm(s)}`", f"`{tgt}` is not a copy: subtracting the radii in place also changes the raw "
+                          "minimum-image distance matrix stored in the same record", M.where(fq, s))
+        else:
+            rep.violation(rid, f"get_distances: `{norm(s)}`", f"the subtracted matrix is not r_i + r_j of get_radii (symmetric: {sym}, from get_radii: {from_radii})",
+                          M.where(fq, s))
+    # finite systems: zero factors of the right shape
+    orelse = [t for t in ast.walk(fn) if isinstance(t, ast.If) and "pbc" in norm(t.test) and t.orelse]
+    if orelse and any(isinstance(s2, ast.Assign) and "zeros" in norm(s2.value) for s2 in orelse[0].orelse):
+        rep.ok(rid, "get_distances: non-periodic systems get zero offset factors")
+    else:
+        rep.violation(rid, "get_distances: non-periodic branch", "offset factors of a finite system are not zero", M.where(fq))
+
+
 def run(rep, ctx):
     M = ctx.model
     rep.explanation = ("contract of the Python wrapper checked against the C++ parameter list (clang AST), unpacking arity of every "
@@ -142,6 +181,7 @@ def run(rep, ctx):
     rep.rule("R10.2", "C++: zero diagonal, (i,j)/(j,i) written with +/-/- signs, closest image kept, only within the cutoff")
     rep.rule("R10.3", "C++: both copies of the 27-bin search use the bin layout of init() with identical clamps and cutoff predicate")
     rep.rule("R10.4", "C++: an infinite cutoff becomes an extension by the longest periodic cell vector")
+    rep.rule("R10.5", "get_distances stores each table under its own name; the radii-corrected matrix is a copy minus r_i + r_j")
     with rep.guard("R10.1"):
         r10_1(rep, M, "R10.1")
     with rep.guard("R10.2"):
@@ -150,6 +190,9 @@ def run(rep, ctx):
         cxxrules.bin_search_siblings(rep, "R10.3")
     with rep.guard("R10.4"):
         cxxrules.infinite_cutoff(rep, "R10.4")
+    with rep.guard("R10.5"):
+        r10_5(rep, M, "R10.5")
+    rep.floor("R10.5", 6)
     rep.floor("R10.1", 14)
     rep.floor("R10.2", 10)
     rep.floor("R10.3", 20)
